@@ -59,6 +59,11 @@ CHECKS = {
         note="Quick compares z3, rc2 and 4 seeded engines; thorough all 17 usable engines. Unusable engines (cms, ks, lgl) are listed in the evidence.",
         ref="6 C11", tech="TLA+ Relations monitor validated by TLC over recorded answers (trace validation)",
     ),
+    "C12": dict(
+        text="Every operator/back-end/mode answers 9-10 programmatic presentations of the same base and queries (keys 0-based/sparse/descending/random, order, atom renaming, signature reordering/extension, equivalence-preserving rewrites, re-presentation from the semantic vector) plus a key-focused stage rotating key 0 over every conditional of multi-layer bases; TLC requires equal answers (Relations monitor) and, up to 4 atoms, equality with the specification's answer (Trace_Ops).",
+        note="The spec's answers are functions of the semantic conditionals by construction; the harness' formula evaluator is trusted to compute them.",
+        ref="6 C12", tech="TLC trace validation of recorded answers against the TLA+ spec and the Relations monitor",
+    ),
 }
 
 NOT_YET = {
